@@ -22,6 +22,14 @@ block.  Two environment parameters are not constrained by the proofs for the rep
 (hardware ordering for a Relaxed load; only the code before the repair depended on it).
 The assembly (`__clone`, the stack-unmap epilogue) is modelled as single steps (`hClone`, `tMunmap`,
 `tExit`), observed by strace, not verified.
+
+A panic can start in two places on T: in the closure (`tPanic`, from `run`) and *inside the epilogue*, at the one
+point where the epilogue runs user code — `drop_in_place` of the result nobody joined (`dropVal`, reached only by
+a thread that lost the CAS, i.e. whose handle was dropped first): `tDropPanic` enters the panic handler (`pRead`)
+from there, with whatever the epilogue has and has not released at that point.  `panicked` = T entered the
+handler; the ghost `dpanic` = it did so from the destructor.  (A destructor that panics on the handle's thread —
+`Drop for JoinHandle` after a lost CAS, or the caller dropping what `join` returned — is the caller's panic, not
+a step of this protocol.)
 -/
 namespace TinyVerif.Thread
 
